@@ -230,11 +230,13 @@ func TestC39Messages(t *testing.T) {
 		}
 
 		var got []int
+		var kept []messages.Elem // the elements as the caller keeps them while iterating on
 		add := func(e messages.Elem) {
 			if e.Msg == nil {
 				t.Fatalf("element %d has a nil message", len(got))
 			}
 			got = append(got, e.Msg.GetID())
+			kept = append(kept, e)
 		}
 		var requestsToEnd int
 		switch api {
@@ -285,6 +287,12 @@ func TestC39Messages(t *testing.T) {
 		if fmt.Sprint(got) != fmt.Sprint(want) {
 			t.Fatalf("%s.%s N=%d page=%d kind=%s:\nserver history ids: %v\niterator yielded:   %v\nrequests: %s",
 				builder, api, n, page, h.kind, want, got, strings.Join(inv.log, "; "))
+		}
+		// an element handed out stays that element while later pages are fetched
+		for i, e := range kept {
+			if e.Msg == nil || e.Msg.GetID() != got[i] {
+				t.Fatalf("%s.%s N=%d page=%d kind=%s: element %d was message %d when it was yielded and is something else after the iteration went on", builder, api, n, page, h.kind, i, got[i])
+			}
 		}
 
 		pages := (n + page - 1) / page
